@@ -394,6 +394,7 @@ func checkRecursionGuard(c *Ctx, rule string, pk *packages.Package) {
 	var testPos, insertPos, resolvePos token.Pos
 	var firstRecurse token.Pos
 	var keyFn *types.Func
+	keyNamesRef := false
 	goan.WalkGuards(info, fd.Body, func(n ast.Node, guards []goan.Lit, _ []ast.Stmt) {
 		underRef := false
 		for _, g := range guards {
@@ -415,11 +416,24 @@ func checkRecursionGuard(c *Ctx, rule string, pk *packages.Package) {
 						if fn.Name() == "schemaFromRef" && underRef && !resolvePos.IsValid() && goan.Mentions(info, x.Lhs[0], info.Defs[fd.Type.Params.List[1].Names[0]]) {
 							resolvePos = x.Pos()
 						}
-						if fn.Name() == "schemaLocationKey" {
-							keyFn = fn
-						}
 					}
 				}
+				// the key: `key := schemaLocationKey(location) + … schema1.Ref …`
+				ast.Inspect(x.Rhs[0], func(m ast.Node) bool {
+					if call, ok := m.(*ast.CallExpr); ok {
+						if fn := goan.Callee(info, call); fn != nil && fn.Name() == "schemaLocationKey" {
+							keyFn = fn
+							keyNamesRef = false
+							ast.Inspect(x.Rhs[0], func(k ast.Node) bool {
+								if sel, ok := k.(*ast.SelectorExpr); ok && sel.Sel.Name == "Ref" && goan.Mentions(info, sel.X, info.Defs[fd.Type.Params.List[1].Names[0]]) {
+									keyNamesRef = true
+								}
+								return true
+							})
+						}
+					}
+					return true
+				})
 			}
 			for _, l := range x.Lhs {
 				if ix, ok := l.(*ast.IndexExpr); ok && goan.LastSel(ix.X) == "schemasCompared" && underRef {
@@ -468,6 +482,8 @@ func checkRecursionGuard(c *Ctx, rule string, pk *packages.Package) {
 		c.Bad(rule, "diff.SpecAnalyser.compareSchema › visited key", c.posOf(pk, fd.Pos()), "the visited-set key is not computed by schemaLocationKey")
 		return
 	}
+	c.Check(keyNamesRef, rule, "diff.SpecAnalyser.compareSchema › visited key names the $ref", c.posOf(pk, fd.Pos()), "the key combines the location root with the Ref of the old-side schema",
+		"the visited-set key does not mention the old-side schema's Ref: two different $ref properties under one request/response root share a key, only the first one reached (map order) is compared")
 	kd := load.FuncDecl(pk, keyFn.Name())
 	loops, recurses := false, false
 	ast.Inspect(kd.Body, func(n ast.Node) bool {
